@@ -250,6 +250,45 @@ func doCLI(c *core.Ctx, n *core.N) {
 	c.Emit("C17.cli", n.Dump(), before, core.Escape(text), out, recs.String(), core.Escape(strings.TrimSpace(r.Stderr)))
 }
 
+// doCLI2: two trees (on different tip names) in one input file: the loop over the input trees.
+func doCLI2(c *core.Ctx, a, b *core.N) {
+	ta, err := core.Build(a)
+	if err != nil {
+		panic(err)
+	}
+	tb, err := core.Build(b)
+	if err != nil {
+		panic(err)
+	}
+	textA, textB := ta.Newick(), tb.Newick()
+	beforeA, st := parseDump(textA)
+	if st != "ok" {
+		panic("c17: cannot re-read the input text: " + st)
+	}
+	beforeB, st := parseDump(textB)
+	if st != "ok" {
+		panic("c17: cannot re-read the input text: " + st)
+	}
+	file := c.TmpFile(textA + "\n" + textB + "\n")
+	r := c.RunCLI("", 30*time.Second, "nni", "-i", file)
+	out := "ok"
+	if r.Timeout {
+		out = "timeout"
+	} else if r.Exit != 0 {
+		out = fmt.Sprintf("exit:%d", r.Exit)
+	}
+	var recs strings.Builder
+	lines := strings.Split(strings.TrimRight(r.Stdout, "\n"), "\n")
+	if strings.TrimSpace(r.Stdout) == "" {
+		lines = nil
+	}
+	for _, l := range lines {
+		d, st := parseDump(l)
+		fmt.Fprintf(&recs, "%s;%s;%s|", st, d, core.Escape(l))
+	}
+	c.Emit("C17.cli2", a.Dump(), b.Dump(), beforeA, beforeB, out, recs.String(), core.Escape(strings.TrimSpace(r.Stderr)))
+}
+
 // Replay re-executes the requests of a corpus / replay file on the real code.
 func Replay(c *core.Ctx, lines []string) {
 	for _, l := range lines {
@@ -267,6 +306,16 @@ func Replay(c *core.Ctx, lines []string) {
 				panic(err)
 			}
 			doCLI(c, n)
+		case f[0] == "C17.cli2" && len(f) >= 3 && c.Gotree != "":
+			a, err := core.ParseDump(f[1])
+			if err != nil {
+				panic(err)
+			}
+			b, err := core.ParseDump(f[2])
+			if err != nil {
+				panic(err)
+			}
+			doCLI2(c, a, b)
 		}
 	}
 }
@@ -337,15 +386,30 @@ func Run(c *core.Ctx) {
 			}
 		}
 	}
+	// outside the property's scope, for the correspondence only: trees with multifurcations
+	// (Rearrange looks at the degrees of the two ends of a branch only)
+	for i := 0; i < c.Scale(25, 400); i++ {
+		o := opts(c.G, !c.Quick())
+		o.Multif = 0.7
+		o.MaxDeg = 4
+		o.Rooted = 2
+		base, _ := c.G.Tree(o)
+		core.NumberEdges(base)
+		if c.G.Chance(0.5) {
+			randomPPos(c.G, base, true)
+		}
+		doEnum(c, pickMode(c.G, base), base)
+	}
 	// CLI tier: `gotree nni` on trees as the Newick parser builds them (parent positions 0)
 	if c.Gotree != "" {
 		m := c.Scale(40, 400)
-		for i := 0; i < m; i++ {
+		cliTree := func(prefix string) *core.N {
 			var base *core.N
 			for {
 				o := opts(c.G, !c.Quick())
 				o.InnerNames = 0
 				o.Comments = 0
+				o.TipPrefix = prefix
 				base, _ = c.G.Tree(o)
 				if binary(base, true) && len(base.Kids) == 3 {
 					break
@@ -359,7 +423,15 @@ func Run(c *core.Ctx) {
 				base = rootOnEdge(c.G, base, c.G.Intn(3))
 				zeroPPos(base)
 			}
-			doCLI(c, base)
+			return base
+		}
+		for i := 0; i < m; i++ {
+			if i%5 == 4 {
+				// two trees in one file (different tip names)
+				doCLI2(c, cliTree("t"), cliTree("u"))
+				continue
+			}
+			doCLI(c, cliTree("t"))
 		}
 	}
 }
